@@ -71,7 +71,14 @@ def run(c):
                  env={"VERIF_SEED": str(c.seed + i), "GORACE": "halt_on_error=0 exitcode=66"})
         race_runs += 1
         if p.returncode not in (0, 66):
-            raise vlib.Infra("race workload failed rc=%d: %s" % (p.returncode, p.stderr[-1500:]))
+            # the workload died: with race reports before it, or with a panic/fatal error raised inside the library under
+            # concurrent use (e.g. a list corrupted by unsynchronised writers), that is an observation of the real code
+            m = re.search(r"^(?:panic: .*|fatal error: .*)$", p.stderr, re.M)
+            lib = re.search(r"^github\.com/Fantom-foundation/lachesis-base/(\S+?)\(", p.stderr[m.start():] if m else "", re.M)
+            if "WARNING: DATA RACE" not in p.stderr and not (m and lib):
+                raise vlib.Infra("race workload failed rc=%d: %s" % (p.returncode, p.stderr[-1500:]))
+            if m and lib:
+                races.setdefault("concurrent-use-crash:" + lib.group(1), p.stderr[m.start():m.start() + 1500])
         for rep in p.stderr.split("WARNING: DATA RACE")[1:]:
             frames = re.findall(r"^  (github\.com/Fantom-foundation/lachesis-base/[^\s(]+(?:\([^)]*\))?[^\s(]*)\(\)", rep, re.M)
             fr = []
@@ -89,6 +96,9 @@ def run(c):
             sig = "race:" + "|".join(sorted(set(sites))) if sites else "race:" + "|".join(fr[:2])
             races.setdefault(sig, rep[:1500])
     for sig, rep in races.items():
+        if sig.startswith("concurrent-use-crash:"):
+            c.violation("race-freedom", sig, "the concurrent workload crashed inside the library: " + rep.splitlines()[0], replay=rep)
+            continue
         c.violation("race-freedom", sig, "the Go race detector reports a data race between " + sig[5:], replay=rep)
     c.guard("race_runs", race_runs)
     return c.finish("model_checking", dict(
